@@ -1065,6 +1065,10 @@ def run(tier):
         # the address copies stay inside their objects (C15's bounded-copy rule on the address code)
         from . import c15
         c15.j3(prog, rep, units=("util/sock.c", "util/sock_util.c"))
+        # "decoders accept exactly the well-formed encodings (... non-alphabet and NUL characters)": the rejecting validation pass
+        # in front of the unchecked table look-ups, and the in-order reading of the NUL-terminated hex string (C15's J2, J7)
+        c15.j2(prog, rep)
+        c15.j7_strseq(prog, rep)
         t5_b64(prog, rep)
         t5_hex(prog, rep)
         t2_padding(prog, rep)
